@@ -116,27 +116,30 @@ def run(prog, world, sem, rep):
             ok = nl is not None and nl[0] == "param" and nl[4] == (POOLF[tk],) and dn.op == "bin" and dn.info == "Add" and \
                 all(sem.label(x) is not None and sem.label(x)[0] == "param" and sem.label(x)[2] != "self" for x in dn.args)
             det = "from_ratio(%s, %s)" % (show(n, 2), show(dn, 3))
-            # guarded by both non-zero
-            be = world.be(b)
-            site = [dd for dd in be.defs if dd.kind == "assign" and dd.path and dd.path[0][1] == RATE[tk] and be.def_value(dd).op == "call" and be.def_value(dd).info.endswith("from_ratio")]
-            pe = set()
+            # guarded by both non-zero tests (looked for in the function that computes the quotient and in its callers)
+            mvs = explore(sem, b)
+            site = fr[0].site
+            hv = [v for v in mvs if site is not None and v.body.path == site[0]]
             kinds = set()
-            for blk in b.blocks:
-                if blk.term.kind == "switch" and blk.idx in be.cfg.live:
-                    for succ, fl in sem.edge_facts(be, blk.idx).items():
-                        for f in fl:
-                            if f[0] == "truth" and f[2] is True and f[1].op == "call" and f[1].info.endswith("::is_zero"):
-                                # zero observed: remove the complementary edges instead: collect per operand
-                                pass
-                            if f[0] == "truth" and f[2] is False and f[1].op == "call" and f[1].info.endswith("::is_zero"):
-                                x = world.ident(f[1].args[0], expand_ws=False)
-                                lx = sem.label(x)
-                                if lx is not None and lx[0] == "param" and lx[4] == (POOLF[tk],):
-                                    kinds.add("pool")
-                                elif x == dn:
-                                    kinds.add("supply")
-            ok = ok and kinds == {"pool", "supply"} and len(site) == 1
-            det += "; non-zero tests observed: %s" % sorted(kinds)
+            if hv:
+                dnn = world.norm(dn, 0, False)
+
+                def nz_pool(f, resolve):
+                    if f[0] == "truth" and f[2] is False and f[1].op == "call" and f[1].info.endswith("::is_zero"):
+                        lx = sem.label(resolve(f[1].args[0]))
+                        return lx is not None and lx[0] == "param" and lx[4] == (POOLF[tk],)
+                    return False
+
+                def nz_supply(f, resolve):
+                    if f[0] == "truth" and f[2] is False and f[1].op == "call" and f[1].info.endswith("::is_zero"):
+                        return world.norm(resolve(f[1].args[0]), 0, False) == dnn
+                    return False
+                if site_guarded(sem, hv[0], site[1], nz_pool)[0]:
+                    kinds.add("pool")
+                if site_guarded(sem, hv[0], site[1], nz_supply)[0]:
+                    kinds.add("supply")
+            ok = ok and kinds == {"pool", "supply"}
+            det += "; non-zero tests observed before the division: %s" % sorted(kinds)
         rep.ob("C03.a", "%s rate := pool / (issued + requested), 1 when either is zero" % tk, ok, det, where(b))
 
     # ---------------------------------------------------------------- C03.b / C03.c
